@@ -553,7 +553,7 @@ int main(int argc, char** argv)
     harness_init(argv[4], argv[5], seed); g_trace = getenv("STRM_TRACE") != NULL;
     dictbuf = xalloc(70000); gen_data(dictbuf, 70000, D_LZLIKE);
     g_hist = xalloc(65536 + 8); g_ringSize = (size_t)LZ4_decoderRingBufferSize(MAXBLOCK); g_ring = xalloc(g_ringSize);
-    nh = thorough ? SH(4000) : 300;
+    nh = thorough ? SH(!strcmp(mode, "c12") ? 12000 : 4000) : 300;
     for (i = 0; i < nh; i++) run_history(i % 2, 20 + (int)rndn(40), mode, dictbuf);
     if (!strcmp(mode, "c11")) for (i = 0; i < (thorough ? SH(3000) : 200); i++) ring_restart_scenario(i % 4 == 3);
     if (!strcmp(mode, "c11")) { int reps = thorough ? 3 : 1, q; for (q = 0; q < reps; q++) if (SHARD_IS(q)) long_stream_renorm_scenario(); }
